@@ -19,3 +19,4 @@ def run(ck):
     region.r5_13_box_difference_keeps_its_width(ck, P, 'C12-R13')   # the mask route of pixman_composite_trapezoids keeps the extents' 32 bits
     traps.r14_bottom_clamp_siblings(ck, P)
     traps.r15_edge_offset_in_wide_type(ck, P)
+    traps.r16_full_destination_box_in_trap_space(ck, P)
